@@ -10,10 +10,13 @@ def sh(cmd, **kw):
 assert sh(f"git -C {wt} status --porcelain").stdout.strip() == "", "worktree not clean"
 env = dict(os.environ, PYTHONPATH="src", TMPDIR=f"/tmp/seedtmp_{pid}")
 os.makedirs(env["TMPDIR"], exist_ok=True)
-d0 = sh(f"cd {wt} && /venv/bin/python {src}/demo.py", env=env)
+extras = [f for f in ("demo.py", "pyfftw.py") if os.path.exists(f"{src}/{f}")]
+for f in extras:                      # the demo is run from inside the worktree, as its author did
+    shutil.copy(f"{src}/{f}", f"{wt}/{f}")
+d0 = sh(f"cd {wt} && /venv/bin/python demo.py", env=env)
 assert sh(f"git -C {wt} apply {src}/patch.diff").returncode == 0, "patch does not apply"
 try:
-    d1 = sh(f"cd {wt} && /venv/bin/python {src}/demo.py", env=env)
+    d1 = sh(f"cd {wt} && /venv/bin/python demo.py", env=env)
     if tests == "ALL":
         # the pinned baseline: every test of /root/.vp/BASELINE.json's stable_pass list must still pass
         jx = env["TMPDIR"] + f"/junit_{var}.xml"
@@ -22,6 +25,9 @@ try:
         t = sh(f"cd {wt} && /venv/bin/python -m pytest -q -p no:cacheprovider {tests} 2>&1 | tail -15", env=env)
 finally:
     sh(f"git -C {wt} checkout -- .")
+    for f in extras:
+        if os.path.exists(f"{wt}/{f}"):
+            os.remove(f"{wt}/{f}")
 tail = t.stdout.strip().splitlines()
 failed = sorted(l.split()[1] for l in tail if l.startswith("FAILED"))
 EXPECTED_FAIL = ("TestShift", "test_fk", "test_saturation", "test_spike_window", "test_wave_shift", "test_sync_timestamps_linear", "test_pre_proc", "test_parallel_computation")
